@@ -45,8 +45,11 @@ def register(reg):
         return origin_fields_equal(eng, st, a, b)
 
     reg.ref_eq[ORIGIN] = origin_eq
-    k = z3.Const("k", StrS)
-    d = z3.Const("d", ValS)
-    reg.axioms.append(z3.ForAll([k], z3.Not(dhas(empty_dict_val, k))))
-    reg.axioms.append(z3.ForAll([k, d], dget(empty_dict_val, k, d) == d))
+    # ground instances of "the empty dict has no key" for every key the package looks up
+    # (quantifier-free on purpose: quantified axioms make every feasibility check time out)
+    for key in ("timeout", "connect", "read", "write", "pool", "sni_hostname", "target", "trace", "reason_phrase", "network_stream"):
+        ks = str_lit(key)
+        reg.axioms.append(z3.Not(dhas(empty_dict_val, ks)))
+        for d in (none_val, empty_dict_val):
+            reg.axioms.append(dget(empty_dict_val, ks, d) == d)
     reg.axioms.append(empty_dict_val != none_val)
